@@ -1129,12 +1129,17 @@ def corpus(r):
                 g.emit({"op": "evreduce", "fn": "sum", "a": lam, "axis": None})
         out.append((g.program, "ring"))
     # 10. Independent over a Delta, a Delta + weights + Gaussian joint, a Gaussian, and a term without the diagonal variable
-    for kind in ("delta:none", "delta:plate", "delta:const", "delta:other", "joint", "gauss"):
+    for kind in ("delta:none", "delta:plate", "delta:const", "delta:other", "joint", "gauss", "delta_same:const", "joint_same"):
         kind, _, ldkind = kind.partition(":")
         g = Gen(r, family="log", max_event=0, real_vars=False)
         b = r.choice(NAMES[:3])
         size = g.sizes[b]
         diag = "x__" + b
+        if kind.endswith("_same"):
+            # the diagonal variable carries the SAME name as the resulting vector-valued one
+            # (the form funsor.distribution itself uses: Independent(fn, "value", name, "value"))
+            diag = "x"
+            kind = kind[: -len("_same")]
         pt = g.emit({"op": "tensor", "inputs": [[b, size]], "shape": [size], "dtype": "float", "data": g.data("real", size)})
         w = g.emit({"op": "tensor", "inputs": [[b, size]], "shape": [size], "dtype": "float", "data": g.data("real", size)})
         term = None
